@@ -141,9 +141,9 @@ def emit_fn_unit(u, repo_root):
 
 def emit_enum_unit(u, repo_root):
     src_rel = u.attrs['file']
-    name = u.attrs['enum']
+    name = u.attrs.get('enum') or u.attrs.get('struct')
     src = open(os.path.join(repo_root, src_rel)).read()
-    st, ob, cb = rustsrc.find_enum(src, name)
+    st, ob, cb = rustsrc.find_enum(src, name, 'struct' if 'struct' in u.attrs else 'enum')
     body = rustsrc.strip_comments(src[st:cb + 1])
     body = re.sub(r'#\[[^\]]*\]', '', body)   # drops #[error(..)] / #[derive(..)] attributes
     text = 'pub ' + body + '\n'
